@@ -104,3 +104,19 @@ Proof.
   split; [repeat constructor|].
   cbn. repeat split; repeat constructor; intros [c Hc]; discriminate.
 Qed.
+
+(* "Issuing does not change the issuer object: it can be repeated": the Issuer as a state machine over its builder calls
+   and encode(); encode leaves the configuration as it is, and every encode of a session is the issuance for the
+   configuration in force at that moment (with its own random choices) *)
+Require Import SDJ.Sessions.
+Theorem C14_encode_does_not_change_the_issuer : forall ops s, fst (irun s ops) = fst (irun s (filter not_encode ops)).
+Proof. exact encode_is_pure. Qed.
+Print Assumptions C14_encode_does_not_change_the_issuer.
+
+Theorem C14_every_encode_issues_the_current_configuration :
+  forall pre E post s,
+  exists outs_pre outs_post,
+    snd (irun s (pre ++ IEncode E :: post)) =
+      (outs_pre ++ (let c := fst (irun s pre) in issue E (i_claims c) (i_paths c) (i_decoys c) (i_cnf c) (i_header c)) :: outs_post)%list.
+Proof. exact session_encodes. Qed.
+Print Assumptions C14_every_encode_issues_the_current_configuration.
